@@ -470,7 +470,7 @@ def run (P : Pipeline X S Rv) (bs : List Batch) : Except ErrKind (State S) := ru
 inductive ROut (Rv : Type) where
   | one (r : Rv)
   | tup (rs : List Rv)
-  deriving Repr
+  deriving Repr, DecidableEq
 
 /-- the key of one entry of `agg_result`: the output key itself when `slice = SliceKey()`, else
 `MetricKey(output key, slice)` (transform.py:381-387) -/
